@@ -402,6 +402,8 @@ def check_selfcheck(case, ctx):
     ctx.cls("selfcheck:" + case["which"] + (":agree<1e-13" if err < 1e-13 else ":agree<1e-10"))
 
 
+from . import _batch  # noqa: E402
+
 SUBS = [
     Sub("functional", check_func,
         rule="Hypothesis draws the product (European, European binary: call/put; American binary, lookback: call), dtype "
@@ -426,6 +428,11 @@ SUBS = [
              "recomputed by 2-D quadrature of the reflection-principle x Girsanov joint density at drawn (t, v, level / "
              "moneyness, running max, strike); disagreement > 1e-10 is a harness error (exit 2). Never counted as non-trivial.",
         strategy=lambda tier: selfcheck_case(), examples={"quick": 32, "thorough": 320}),
+    Sub("batch_independence", lambda case, ctx: _batch.check_batch(case, ctx, _batch.PRICES, "C07"),
+        rule="2..7 points of the open domain per call (log-moneyness incl. exact 0, running maximum on both sides of the strike, hit and "
+             "not-hit barriers in any order) as vector / column / matrix: the price at an element of the batch must equal the price of that "
+             "element evaluated alone (which the functional sub ties to the expectation). Non-trivial: hit and not-hit barriers in one batch.",
+        strategy=lambda tier: _batch.batch_case(boundary=False), examples={"quick": 1500, "thorough": 15000}),
 ]
 
 META = {
